@@ -41,6 +41,8 @@ SPEC['explanation'] += ' T11.replace: update() never delegates to the adding bul
 SPEC['decided'] += ['update does not delegate to adding siblings']
 SPEC['explanation'] += " T9.exhaust: two OMDs compare equal only on paths where both pair iterators were seen exhausted. T26 also covers setdefault and the other accessors (no presence decision on a None-defaulted get). T14.get: get/getlist/pop/poplast answer with a looked-up value or the caller's default."
 SPEC['decided'] += ['both pair sequences exhausted before True', 'no None-presence decisions in accessors', 'default returned, never a constant']
+SPEC['explanation'] += ' T17.sorted: sorted()/sortedvalues() hand the caller\'s key and reverse to the builtin unchanged.'
+SPEC['decided'] += ['sort order parameters passed through']
 MANIFEST = {
     'technique': 'paired-effect (lock-step) analysis over all feasible CFG paths with inlined helpers; MRO override closure; one-pass (consumption count) dataflow; copy-protocol and discarded-result rules',
     'text': ('Decides the structural half of C01 for every path of every method of both OMD copies: the per-key value '
@@ -111,7 +113,35 @@ def exhaustion(ctx, prog, cls):
                detail='not seen exhausted: pairs of %s' % bad[1] if bad else '%d paths' % n, path=bad[0].describe() if bad else None)
 
 
+def sorted_passthrough(ctx):
+    """T17.sorted: OrderedMultiDict.sorted / sortedvalues order by the caller's `key` and `reverse` as given: the builtin sorted()
+    they call receives `key=key, reverse=reverse` (the parameters themselves; with key=None the pairs are compared whole, so
+    pairs under one key are ordered by value)."""
+    import ast
+    from rules.common import txt
+    from sa.paths import call_name
+    for cls in SUBJECTS:
+        for name in ('sorted', 'sortedvalues'):
+            try:
+                f = ctx.program.func(cls + '.' + name)
+            except Exception:
+                continue
+            calls = [c for c in ast.walk(f.node) if isinstance(c, ast.Call) and call_name(c) == 'sorted']
+            for c in calls:
+                kws = {k.arg: k.value for k in c.keywords}
+                args = list(c.args)
+                kv = kws.get('key', args[1] if len(args) > 1 else None)
+                rv = kws.get('reverse', args[2] if len(args) > 2 else None)
+                rebound = {n.id for n in ast.walk(f.node) if isinstance(n, ast.Name) and isinstance(n.ctx, ast.Store)}
+                ok = isinstance(kv, ast.Name) and kv.id == 'key' and 'key' not in rebound
+                if name == 'sorted':        # (sortedvalues consumes its sorted lists from the end and passes `not reverse`)
+                    ok = ok and isinstance(rv, ast.Name) and rv.id == 'reverse' and 'reverse' not in rebound
+                ctx.ob('T17.sorted', f.fq, 'sorted(...) receives the caller\'s key and reverse as given', ok,
+                       loc='%s:%d' % (f.module.relpath, c.lineno), detail=txt(c)[:100])
+
+
 def run(ctx):
+    sorted_passthrough(ctx)
     from rules.common import check_sentinel_default as _csd
     for _c in SUBJECTS:
         for _m in ('getlist', 'pop', 'popall', 'poplast'):
